@@ -476,16 +476,7 @@ fn check_division_by_zero_err<T>() -> (r: Result<T>)
         {"kind": "enum", "file": V, "name": "Number", "attrs": "#[derive(Clone, Copy)]"},
         {"kind": "enum", "file": V, "name": "NumberBinaryOperand"},
         {"kind": "fn", "file": V, "name": "upcast_oprands", "props": ["C09", "C10"],
-         "contract": """    ensures
-        wf(operand.0) && wf(operand.1) ==> wf(r.lhs_spec()) && wf(r.rhs_spec()),
-        is_exact(operand.0) && is_exact(operand.1) ==> {
-            &&& is_exact(r.lhs_spec()) && is_exact(r.rhs_spec())
-            &&& numer(r.lhs_spec()) == numer(operand.0) && denom(r.lhs_spec()) == denom(operand.0)
-            &&& numer(r.rhs_spec()) == numer(operand.1) && denom(r.rhs_spec()) == denom(operand.1)
-            &&& (r is Integer <==> operand.0 is Integer && operand.1 is Integer)
-        },
-        !is_exact(operand.0) || !is_exact(operand.1) ==>
-            r == NumberBinaryOperand::Real(conv(operand.0), conv(operand.1)),""",
+         "contract": """    ensures upcast_post(operand.0, operand.1, r),""",
          "sig_rewrites": [("S1", r"\) -> NumberBinaryOperand<R>$", ") -> (r: NumberBinaryOperand<R>)")],
          "body_start": R_OPS},
 
@@ -669,6 +660,39 @@ fn check_division_by_zero_err<T>() -> (r: Result<T>)
          }},
     ],
     "spec": SPEC + r'''
+/// the contract of upcast_oprands: both operands brought to a common kind without changing their values
+pub open spec fn upcast_post<R: RealNumberInternalTrait>(x: Number<R>, y: Number<R>, r: NumberBinaryOperand<R>) -> bool {
+    &&& (wf(x) && wf(y) ==> wf(r.lhs_spec()) && wf(r.rhs_spec()))
+    &&& (is_exact(x) && is_exact(y) ==> {
+            &&& is_exact(r.lhs_spec()) && is_exact(r.rhs_spec())
+            &&& numer(r.lhs_spec()) == numer(x) && denom(r.lhs_spec()) == denom(x)
+            &&& numer(r.rhs_spec()) == numer(y) && denom(r.rhs_spec()) == denom(y)
+            &&& (r is Integer <==> x is Integer && y is Integer)
+        })
+    &&& (!is_exact(x) || !is_exact(y) ==> r == NumberBinaryOperand::Real(conv(x), conv(y)))
+}
+/// C10 max / min: the binary step of the builtins max and min (base.rs first_of_order!: `if a > b { oprand.lhs() } else
+/// { oprand.rhs() }` on `oprand = upcast_oprands((a, b))`; proved in unit base_folds to be what is folded) returns, on
+/// exact operands, an exact number that is numerically one of the two and not below (max) / not above (min) either of
+/// them; with an inexact operand it returns the converted operand selected by R's own comparison -- inexact.
+pub proof fn lemma_maxmin_step<R: RealNumberInternalTrait>(a: Number<R>, b: Number<R>, o: NumberBinaryOperand<R>, want_max: bool)
+    requires wf(a), wf(b), upcast_post(a, b, o),
+    ensures ({
+        let first = if want_max { num_cmp_spec(a, b) == Some(Ordering::Greater) } else { num_cmp_spec(a, b) == Some(Ordering::Less) };
+        let m = if first { o.lhs_spec() } else { o.rhs_spec() };
+        &&& wf(m)
+        &&& is_exact(m) == (is_exact(a) && is_exact(b))
+        &&& (is_exact(a) && is_exact(b) ==> {
+                &&& (q_eq(m, a) || q_eq(m, b))
+                &&& (want_max ==> !q_lt(m, a) && !q_lt(m, b))
+                &&& (!want_max ==> !q_lt(a, m) && !q_lt(b, m))
+            })
+        &&& (!is_exact(a) || !is_exact(b) ==> m == (if first { Number::Real(conv(a)) } else { Number::Real(conv(b)) }))
+    }),
+{
+    lemma_i32_products();
+    lemma_mul_commutes();
+}
 // ---- C10: the five comparison operators on Numbers, as the builtins use them (`last_num < current_num`, `==` ...):
 // ---- std derives them from partial_cmp / eq; with Number obeying its specs they are PROVED to be the order above
 fn witness_operators<R: RealNumberInternalTrait>(x: Number<R>, y: Number<R>) -> (r: (bool, bool, bool, bool, bool))
